@@ -5,8 +5,8 @@ TRUSTED_BASE = [
     "Coq 8.16.1 kernel (coqc; vm_compute used for closed computations; no native_compute); coqchk re-check in the thorough tier",
     "No axioms: Print Assumptions under every property theorem must print 'Closed under the global context'",
     "Extraction to OCaml with ExtrOcamlBasic only (bool/option/list/prod/unit/sumbool to natives; N, Z, positive, nat stay Coq datatypes; no Extract Constant / Extract Inductive of our own); OCaml 4.13.1",
-    "Unverified glue: Go harness (/verif/harness: generators, observation of the implementation), OCaml driver (/verif/ocaml: S-expression reader, comparison, predicates evaluated with extracted Coq definitions), ./check",
-    "Modelled, not verified (outside /repo): Go's unicode/utf8, regexp semantics of the two fixed patterns, slices/defer/recover semantics; validated by the differential correspondence on every run",
+    "Unverified glue: Go harness (/verif/harness: generators, observation of the implementation, the standard fmt package as reference where the property names it), OCaml driver (/verif/ocaml: S-expression reader, comparison, predicates evaluated with extracted Coq definitions), ./check",
+    "Modelled, not verified (outside /repo): Go's unicode/utf8, regexp semantics of the two fixed patterns, strconv (oracle tables computed by the harness with the real strconv), reflect type names/addresses (data of the case), fmtsort order (keys arrive sorted), sync.Pool, slices/defer/recover semantics; validated by the differential correspondence on every run",
 ]
 
 LOW = [
@@ -17,35 +17,75 @@ BUF = [
     {"gen": "buffer", "quick": "-depth 2 -n 30000", "thorough": "-depth 3 -n 300000"},
 ]
 BUFINV = [
-    {"gen": "buffer-invalid-runes", "quick": "-depth 2 -n 20000", "thorough": "-depth 3 -n 200000"},
+    {"gen": "buffer-invalid-runes", "quick": "-depth 1 -n 20000", "thorough": "-depth 2 -n 200000"},
 ]
 MARKERS = [
     {"gen": "markers", "quick": "-depth 5 -n 5000", "thorough": "-depth 8 -n 100000"},
 ]
 
+
+def Q(name, quick_n, thorough_n, depth=2, shards=8, tdepth=3):
+    return {"gen": name, "quick": "-depth %d -n %d" % (depth, quick_n), "thorough": "-depth %d -n %d" % (tdepth, thorough_n),
+            "shards": shards}
+
+
 BUFRULE = "all ManualBuffer call sequences over a 50-op alphabet (SetMode x3, Write of 17 hostile payloads incl. markers/partial markers/LF, raw fragments, WriteByte x9, WriteRune x8, accessors, Take, Reset, Grow) up to the depth, plus random sequences of length 2-15; the hidden state (buf, validUntil, mode, markerOpen) is compared with the model after EVERY call; non-trivial = at least 2 calls"
+PRINTRULE = "random printer cases from one seeded PRNG (sharded): entry points Sprint/Sprintf/Fprintf/HelperForErrorf/Sprintfn/StringBuilder; operands from the value zoo (basic and named kinds, SafeValue and registered types, []byte, slices/arrays/maps/structs with exported and unexported interface fields, pointers, Safe/Unsafe wrappers up to depth 3, RedactableString/Bytes, 12 scripted user kinds with value/pointer/nil receivers whose methods write, call every SafeWriter method, Print/Printf recursively, dump the fmt.State, panic); formats with all flags, widths, precisions, '*' forms, argument indexes, bad verbs, EXTRA/MISSING/NOVERB; hostile payloads (markers, partial markers, LF, invalid UTF-8); error hook on/off; registry on/off. Each case is run on the implementation and on the extracted model (bytes compared), and the property predicates are evaluated on the implementation's output"
 
 PROPS = {
     "C01": {
-        "gens": BUF + LOW[1:],
-        "qtags": ["Q:C01", "Q:C11"],
-        "rule": BUFRULE + "; EscapeBytes on all strings over the escape alphabet",
+        "gens": BUF + LOW[1:] + [Q("q01", 2400, 80000)],
+        "qtags": ["Q:C01", "Q:closure", "Q:C11"],
+        "rule": BUFRULE + "; EscapeBytes on all strings over the escape alphabet; " + PRINTRULE + "; Join/EscapeBytes results",
         "exhaustive": True,
         "assumptions": ["raw (pre-redactable) writes are of well-formed, marker-closed fragments (hypothesis rawok of the theorems; enforced by the driver with the same extracted predicate)"],
     },
+    "C02": {
+        "gens": [Q("q02", 2400, 80000)],
+        "qtags": ["Q:C02", "Q:C11"],
+        "rule": "for each generated shape (format + operand tree), three instantiations of the leaves not declared safe (strings/byte slices: same rune count, line feeds at the same rune positions; integers: zero stays zero; floats, bools arbitrary; strings returned/written by user methods likewise; map keys, '*' operands, declared-safe values, literals shared): Redact() of the three outputs must be byte-identical; " + PRINTRULE,
+        "assumptions": ["the instantiation relation is the reading of 'same shape, same emptiness, same line-break positions' given in DESIGN.md"],
+    },
     "C03": {
-        "gens": BUF + LOW[1:],
+        "gens": BUF + LOW[1:] + [Q("q01", 2400, 80000)],
         "qtags": ["Q:C03", "Q:C11"],
-        "rule": BUFRULE + "; EscapeBytes on all strings over the escape alphabet",
+        "rule": BUFRULE + "; EscapeBytes on all strings over the escape alphabet; " + PRINTRULE + "; per-line redaction/stripping compared with whole-string redaction/stripping",
         "exhaustive": True,
         "assumptions": ["raw writes are line-safe fragments (rawok)"],
     },
-    "C13": {
-        "gens": BUF,
-        "qtags": ["Q:C13", "Q:C11"],
-        "rule": BUFRULE + "; accessors/Take/Reset occur at every position; strings handed out earlier are re-read at the end",
+    "C04": {
+        "gens": [Q("q04", 3200, 100000)],
+        "qtags": ["Q:C04", "Q:C11"],
+        "rule": "fmt-compatible cases (valid UTF-8; no redact-specific types; no %w; no '0' with '-'): StripMarkers(redact.Sprint/Sprintf/Fprint/Fprintf) = fmt.Sprint/Sprintf with markers replaced by '?', and the two panic together; Stringer/error/Formatter/GoStringer scripts incl. panicking and nil receivers; " + PRINTRULE,
+        "assumptions": ["reference = the standard fmt of the installed toolchain (go1.23)"],
+    },
+    "C05": {
+        "gens": [Q("q05", 3200, 100000)],
+        "qtags": ["Q:C05", "Q:C11"],
+        "rule": "formats with verbs valid for their operands, flags, width, precision; operands mixing declared-safe leaves (SafeValue types, registered types in the configurations that register them, Safe()-wrapped) and unsafe leaves at top level and inside []interface{}, [2]interface{} and exported interface struct fields; reference text = fmt.Sprintf on the same tree in which every unsafe leaf is replaced by a Formatter that prints only the line feeds of the leaf's rendering under the active directive; both registry configurations",
+        "assumptions": ["map keys cannot be blanked in the reference (string-typed keys) and are exercised by the correspondence only"],
+    },
+    "C06": {
+        "gens": [Q("q06", 3200, 100000)],
+        "qtags": ["Q:C06", "Q:C11"],
+        "rule": "x from the full value zoo incl. user methods that call back through Print/Printf/Safe*/Unsafe*/Write, error hook on/off, registry on/off, every verb and flag subset; wrappers nested up to depth 3; Unsafe(x): nothing but line feeds outside envelopes; Safe(x) for x without own classification: no envelope; characters = fmt's for fmt-compatible x",
+    },
+    "C07": {
+        "gens": MARKERS,
+        "qtags": ["Q:C07", "Q:C11"],
+        "rule": "all strings over the 9-letter alphabet {‹,›,×,LF,a,E2,80,B9,BA} up to the depth, plus random hostile strings; non-trivial = Redact or StripMarkers changes the string",
         "exhaustive": True,
-        "assumptions": ["abstract list-level model: aliasing of the backing array by struct copies is covered by the state comparison only"],
+        "assumptions": ["regexp engine semantics for the two fixed patterns modelled at token level (validated here exhaustively up to the bound)"],
+    },
+    "C08": {
+        "gens": [Q("q08", 1600, 60000)],
+        "qtags": ["Q:C08", "Q:C11"],
+        "rule": "redactables obtained from the library by iterating Sprint/Sprintf/Join/StringBuilder from hostile seeds up to the depth; every directive other than %T/%p with flags/width/precision; containers (slice, map value, exported and unexported struct fields, pointer to struct); Sprintf concatenation; Join/JoinTo with redactable delimiters; Redact/StripMarkers distribute",
+    },
+    "C09": {
+        "gens": [Q("q09", 1600, 60000)] + BUF,
+        "qtags": ["Q:C09", "Q:C11"],
+        "rule": "random sequences (1-6, sometimes 10-40) of the 17 SafeWriter/io.Writer calls incl. nested Print/Printf with valid-UTF-8 hostile payloads, run through StringBuilder, the Sprintfn printer and a SafeFormat printer; the three results are compared with the payload concatenations (stripped / envelopes deleted) and with each other up to merging; ManualBuffer: " + BUFRULE,
     },
     "C10": {
         "gens": LOW,
@@ -54,11 +94,45 @@ PROPS = {
         "exhaustive": True,
         "assumptions": ["regexp engine semantics for [‹›] modelled at token level (validated here)"],
     },
-    "C07": {
-        "gens": MARKERS,
-        "qtags": ["Q:C07", "Q:C11"],
-        "rule": "all strings over the 9-letter alphabet {‹,›,×,LF,a,E2,80,B9,BA} up to the depth, plus random hostile strings; non-trivial = Redact or StripMarkers changes the string",
+    "C11": {
+        "gens": [Q("q11", 1600, 60000)] + BUFINV + [Q("printer", 1600, 60000)],
+        "qtags": ["Q:C11"],
+        "rule": "every rune class (negative, surrogates incl. both ends, > MaxRune, boundaries) and all 256 bytes through SafeRune/UnsafeRune/SafeByte/UnsafeByte/WriteRune/WriteByte on StringBuilder, SafePrinter and ManualBuffer in 5 buffer states; JoinTo with 14 non-slice/nil/typed-nil/slice operands; user methods made to panic at every position of their script (plain and nested payloads), at top level and inside slices/structs, with and without hook: text before and after intact; ManualBuffer histories with invalid runes (state compared with the model); " + PRINTRULE,
+        "assumptions": ["Grow(n<0) and memory exhaustion are outside the claim", "a panic raised while a panic payload is printed, or by the Sprintfn callback itself, propagates (as in fmt)"],
+    },
+    "C12": {
+        "gens": [Q("q12", 60, 600, shards=4)],
+        "qtags": ["Q:C12", "Q:C11"],
+        "rule": "histories of 1-6 prior calls (outputs > 64 KiB, nested panics incl. inside nested printers, %w and misused %w, argument indexes with '*', Safe/Unsafe around nested printers, panicking Sprintfn callback, bad verbs, random printer cases) followed by 16 fixed probes whose results are compared with those of a freshly started process (the harness re-executes itself); pool allocation counter proves the probes ran on recycled printers; then 16 goroutines x 40 mixed calls compared with the same baseline",
+        "assumptions": ["schedules and data races: runtime evidence only (16 goroutines, results compared); not a theorem"],
+    },
+    "C13": {
+        "gens": BUF + [Q("q09", 1600, 60000)],
+        "qtags": ["Q:C13", "Q:C11"],
+        "rule": BUFRULE + "; accessors/Take/Reset occur at every position; strings handed out earlier are re-read at the end; StringBuilder sequences re-run with accessors inserted between the calls",
         "exhaustive": True,
-        "assumptions": ["regexp engine semantics for the two fixed patterns modelled at token level (validated here exhaustively up to the bound)"],
+        "assumptions": ["abstract list-level model: aliasing of the backing array by struct copies is covered by the state comparison only"],
+    },
+    "C14": {
+        "gens": [{"gen": "q14", "quick": "-depth 2 -n 1", "thorough": "-depth 4 -n 1"}],
+        "qtags": ["Q:C14", "Q:C11"],
+        "rule": "the product 32 flag subsets x widths {absent,0,1,7,12,1000,*} x precisions {absent,0,1,5,*,'.'} x 52 ASCII letter verbs + 4 multi-byte verbs (quick: a stratified slice, thorough: all of it), under the standard fmt.State and under redact's printer as fmt.State: MakeFormat's result is compared with the Coq model's, re-parsed by the real printer (state read back by a probing Formatter) and by the model's parser; Safe(x)/Unsafe(x)/forwarding Formatter printed with fmt and with redact for operands of 14 basic kinds",
+        "exhaustive": True,
+    },
+    "C15": {
+        "gens": [Q("q15", 3200, 100000)],
+        "qtags": ["Q:C15", "Q:C11"],
+        "rule": "formats with 1-4 directives of which each is %w or %v with flags/width/precision, operands: pointer errors, wrapping errors, Safe/Unsafe-wrapped errors, nil, int, string, struct; hook on/off; returned error identity against the property's prescription; text against Sprintf with the correct %w read as %v; against fmt.Errorf (message and Unwrap) for at most one %w",
+        "assumptions": ["%w carrying a + or # flag is not compared with fmt.Errorf: the standard library changed how it sets these flags up for w after the fork was taken (Go 1.20)"],
+    },
+    "C16": {
+        "gens": [Q("q16", 1600, 60000)],
+        "qtags": ["Q:C16", "Q:C11"],
+        "rule": "each random argument list / format is printed through Sprint(f), Fprint(f) (writers that succeed, fail, write short), StringBuilder.Print(f), SafePrinter.Print(f) inside Sprintfn and inside a SafeFormat method; identical bytes for the S/F pair, equality up to merging of adjacent envelopes for the others, one Write, (n, err) passthrough; " + PRINTRULE,
+    },
+    "C17": {
+        "gens": [Q("q17", 400, 8000)],
+        "qtags": ["Q:C17", "Q:C11"],
+        "rule": "6 error kinds (plain, wrapping, also Stringer, also Formatter, nil receiver, one making the hook panic) x 9 directives x hook on/off x 5 positions (top level, []interface{}, map value, exported error field, interface field behind a pointer) + Unsafe() + self-classifying errors + %w through HelperForErrorf; the hook records (error, verb); plus scripted hooks compared with the model",
     },
 }
